@@ -43,6 +43,11 @@ text as children (`RefTextPP`, `RefTextStash`); `InlineProcessor.run` visiting t
 hold the codes `STX n ETX` of escaped characters and stay as they are (`RefTextRun`); prettify, unescape, serializer
 (`RefTextBack`); front end and composition (`RefTextConv`); the bridge to `printInlines`/`specInlines` (`RefTextSpec`).
 
+Part 3 (`Lemmas/RefTextLines.lean`): `C15_label_linebreak`, `C15_label_linebreak_variant` — "treating a LINE BREAK …
+inside the label at the place of use as one space", end to end: the paragraph has two lines, the label is broken
+after `l1`; the second line may be indented and starts with a plain character; the key is that of the whole label
+(`normUse` collapses the line break and the indentation to one space).
+
 Restrictions of part 2, found by testing or inherited: full form `[text][label]` / `[text] [label]` with a non-empty
 label (the collapsed and shortcut forms look up the link TEXT, which by then holds placeholders for code spans and
 escapes: `Props/C15Forms.lean` has them for plain text); the line starts with a character that starts no block
@@ -53,6 +58,7 @@ characters (`lineCh`: no `&`, `<`, control characters, line break) and is not it
 import MdVerif.Props.C15Forms
 import MdVerif.Lemmas.RefTextDoc
 import MdVerif.Lemmas.RefTextSpec
+import MdVerif.Lemmas.RefTextLines
 
 namespace MdVerif.RefText
 open Py Inline RefDef InlineRef
@@ -307,6 +313,77 @@ theorem C15_mix_loop (cfg : Inline.Cfg) (hE : DocParse.EscOK cfg.esc) (hrb : ']'
       some (lineRes cfg.esc st.stash.length C0 us,
         { st with stash := st.stash ++ lineStash cfg.esc st.stash.length C0 us }) :=
   handleInlineTop_line cfg hE hrb C0 us st h0 hus
+
+/-! ## Part 3: a line break inside the label at the place of use -/
+
+/-- **The label broken over two lines.**  The paragraph is `pre[text][l1` ⏎ `l2]post` (plain text around and in the
+    brackets as in `Props/C15Forms.lean`; `l2` — the rest of the label on the second line — may be indented and starts
+    with a character that starts no block construct and is not `[`).  When the key of the WHOLE label
+    `l1 ++ "\n" ++ l2` is looked up to `(url, title)` among the definitions of the document, the link is rendered
+    as for a label on one line. -/
+theorem C15_label_linebreak (cfg : Pipeline.Cfg) (hbl : cfg.blockLevel = TreeProc.defaultBlockLevel)
+    (htab : 0 < cfg.tab) (before after : List DefSpec) (hb : ∀ d ∈ before, d.ok cfg.tab = true)
+    (ha : ∀ d ∈ after, d.ok cfg.tab = true) (pre text sp l1 l2 post : Str)
+    (hpre : PlainText pre = true) (htext : PlainText text = true) (hpost : PlainText post = true)
+    (hstart : ParaStartOK pre = true) (hsp : sp = [] ∨ sp = [' '])
+    (hu1 : UseLabelOK l1 = true) (hu2 : UseLabelOK l2 = true)
+    (h1n : '\n' ∉ l1) (h2n : '\n' ∉ l2) (h1c : l1.all docCh = true) (h2c : l2.all docCh = true)
+    (h2 : ∃ n c r, l2 = Block.spaces n ++ c :: r ∧ Block.plainCh c = true ∧ c ≠ '[')
+    (url : Str) (title : Option Str)
+    (hlook : Block.lookupRef ((before ++ after).map DefSpec.entry) (useKey text (l1 ++ '\n' :: l2)) = some (url, title)) :
+    Pipeline.convert cfg (docOf before (refSrc pre text sp (l1 ++ '\n' :: l2) post) after) =
+      .ok ("<p>".toList ++ (pre ++ (linkHtmlF cfg.fmt url title text ++ post)) ++ "</p>".toList) :=
+  convert_link_break cfg hbl htab before after hb ha pre text sp l1 l2 post hpre htext hpost hstart hsp hu1 hu2 h1n h2n
+    h1c h2c h2 url title hlook
+
+/-- **… it matches the definition whose label has the same words.**  The definition `d` (the last one with its key)
+    has the label `labelOf (w0 :: ws)`; the label at the place of use is a variant `useVariant w0' vs` of it (case of
+    any characters changed, the words separated by any runs of white space) that is broken over two lines:
+    `useVariant w0' vs = l1 ++ "\n" ++ l2`.  The link carries the destination and title of `d`. -/
+theorem C15_label_linebreak_variant (cfg : Pipeline.Cfg) (hbl : cfg.blockLevel = TreeProc.defaultBlockLevel)
+    (htab : 0 < cfg.tab) (before after L1 L2 : List DefSpec) (d : DefSpec) (harr : before ++ after = L1 ++ d :: L2)
+    (hb : ∀ d ∈ before, d.ok cfg.tab = true) (ha : ∀ d ∈ after, d.ok cfg.tab = true)
+    (hlast : ∀ d' ∈ L2, normDef d'.label ≠ normDef d.label) (pre text sp l1 l2 post : Str)
+    (w0 : Str) (ws : List Str) (w0' : Str) (vs : List (Str × Str)) (hdl : d.label = labelOf (w0 :: ws))
+    (hw : ∀ w ∈ w0 :: ws, isWord w = true) (h0 : sameLower w0 w0' = true) (hv : variantOK ws vs = true)
+    (hdec : useVariant w0' vs = l1 ++ '\n' :: l2)
+    (hpre : PlainText pre = true) (htext : PlainText text = true) (hpost : PlainText post = true)
+    (hstart : ParaStartOK pre = true) (hsp : sp = [] ∨ sp = [' '])
+    (hu1 : UseLabelOK l1 = true) (hu2 : UseLabelOK l2 = true)
+    (h1n : '\n' ∉ l1) (h2n : '\n' ∉ l2) (h1c : l1.all docCh = true) (h2c : l2.all docCh = true)
+    (h2 : ∃ n c r, l2 = Block.spaces n ++ c :: r ∧ Block.plainCh c = true ∧ c ≠ '[') :
+    Pipeline.convert cfg (docOf before (refSrc pre text sp (l1 ++ '\n' :: l2) post) after) =
+      .ok ("<p>".toList ++ (pre ++ (linkHtmlF cfg.fmt d.url (storedTitle d.title) text ++ post)) ++ "</p>".toList) := by
+  have hkey : useKey text (l1 ++ '\n' :: l2) = normDef d.label := by
+    have hne : (l1 ++ '\n' :: l2).isEmpty = false := by cases l1 <;> rfl
+    unfold useKey
+    rw [hne, ← hdec, hdl]
+    exact C15_label_match w0 ws w0' vs hw h0 hv
+  have hlook : Block.lookupRef ((before ++ after).map DefSpec.entry) (useKey text (l1 ++ '\n' :: l2)) =
+      some (d.url, storedTitle d.title) := by
+    rw [harr, hkey, List.map_append, List.map_cons, entry_eq d]
+    apply C15_lookup_last_wins
+    simp only [refKeys, List.map_map, List.mem_map, Function.comp, not_exists, not_and]
+    intro d' hd' e
+    exact hlast d' hd' e
+  exact C15_label_linebreak cfg hbl htab before after hb ha pre text sp l1 l2 post hpre htext hpost hstart hsp hu1 hu2
+    h1n h2n h1c h2c h2 _ _ hlook
+
+/-- the label `Foo` ⏎ `   BAR` (line break and indentation) finds `[foo bar]: …`; evaluated by the kernel on the model
+    (same on the implementation) -/
+example : Pipeline.convert {} "see [x][Foo\n   BAR] end\n\n[foo bar]: /u 'T'".toList =
+    .ok "<p>see <a href=\"/u\" title=\"T\">x</a> end</p>".toList := by decide +kernel
+
+/-- … and through the theorem -/
+example : Pipeline.convert {} (docOf [] (refSrc "see ".toList "x".toList [] ("Foo".toList ++ '\n' :: "   BAR".toList)
+      " end".toList) [⟨0, "foo bar".toList, "/u".toList, some (.sq, "T".toList), false⟩]) =
+    .ok ("<p>".toList ++ ("see ".toList ++ (linkHtmlF .xhtml "/u".toList (some "T".toList) "x".toList ++ " end".toList)) ++
+      "</p>".toList) :=
+  C15_label_linebreak_variant {} rfl (by decide) [] _ [] [] _ rfl (by simp) (by decide) (by simp)
+    "see ".toList "x".toList [] "Foo".toList "   BAR".toList " end".toList "foo".toList ["bar".toList] "Foo".toList
+    [("\n   ".toList, "BAR".toList)] rfl (by decide) (by decide) (by decide) (by decide) (by decide) (by decide)
+    (by decide) (by decide) (Or.inl rfl) (by decide) (by decide) (by decide) (by decide) (by decide) (by decide)
+    ⟨3, 'B', "AR".toList, by decide, by decide, by decide⟩
 
 /-! ### instances: the hypotheses are satisfiable; evaluated by the kernel on the model as well -/
 
